@@ -9,8 +9,8 @@ use serde::{Deserialize, Serialize};
 
 use crate::cfg::AvailableValueMap;
 use crate::parser::{
-    CsrImm, HasRegisterSets, InstructionProperties, LabelString, LabelStringToken,
-    RegisterProperties,
+    CsrImm, HasRegisterSets, InstructionProperties, LabelString, LabelStringToken, LoadType,
+    RegisterProperties, StoreType,
 };
 use crate::parser::{ParserNode, Register};
 use crate::passes::{CfgError, GenerationPass};
@@ -195,6 +195,28 @@ impl GenerationPass for AvailableValuePass {
                             !matches!(value, AvailableValue::RegisterWithScalar(reg, _) if overwritten.contains(reg))
                         })
                         .collect();
+                    // A store through the stack pointer invalidates every slot it overlaps
+                    // (byte and half stores, and word stores that are not aligned with a slot)
+                    if let ParserNode::Store(store) = &node.node() {
+                        if store.rs1.get().is_stack_pointer() {
+                            if let Some(curr_stack) = node.reg_values_in().stack_offset() {
+                                let size = match store.inst.get() {
+                                    StoreType::Sb => 1,
+                                    StoreType::Sh => 2,
+                                    StoreType::Sw => 4,
+                                };
+                                let lo = i64::from(curr_stack) + i64::from(store.imm.get().value());
+                                let hi = lo + size;
+                                map = map
+                                    .into_iter()
+                                    .filter(|(location, _)| {
+                                        !matches!(location, MemoryLocation::StackOffset(slot)
+                                            if i64::from(*slot) < hi && lo < i64::from(*slot) + 4)
+                                    })
+                                    .collect();
+                            }
+                        }
+                    }
                     if let Some((MemoryLocation::StackOffset(offset), value)) =
                         node.gen_memory_value()
                     {
@@ -213,7 +235,10 @@ impl GenerationPass for AvailableValuePass {
                 // that change our outs.
 
                 rule_expand_address_for_load(&node.node(), &mut out_reg_n, &node.reg_values_in());
-                rule_value_from_stack(&node.node(), &mut out_reg_n, &node.memory_values_in());
+                // Only a full word load reads the whole value of a stack slot
+                if !matches!(&node.node(), ParserNode::Load(load) if *load.inst.get() != LoadType::Lw) {
+                    rule_value_from_stack(&node.node(), &mut out_reg_n, &node.memory_values_in());
+                }
                 rule_pull_value_from_csr_memory(
                     &node.node(),
                     &mut out_reg_n,
